@@ -92,10 +92,11 @@ def build_stack(w):
         seed = np.int64(seed)  # a seed taken from an array of seeds
     if kind in ("x", "y", "source", "target"):
         cls = {"x": W.XTransformWrapper, "y": W.YTransformWrapper, "source": W.SourceTransformWrapper, "target": W.TargetTransformWrapper}[kind]
-        ds = cls(base, transform=treg.build(w["t"]), seed=seed)
+        # the documented signatures are (dataset, transform | configs | transforms, seed): half of the wrappers are built positionally
+        ds = cls(base, treg.build(w["t"]), seed) if w.get("call") == "positional" else cls(base, transform=treg.build(w["t"]), seed=seed)
     elif kind == "multiview":
         cfg_objs = [(c["n_views"], PlainCallable() if c["t"] == "plain" else treg.build(c["t"])) for c in w["configs"]]
-        ds = W.KDMultiViewWrapper(base, configs=cfg_objs, seed=seed)
+        ds = W.KDMultiViewWrapper(base, cfg_objs, seed) if w.get("call") == "positional" else W.KDMultiViewWrapper(base, configs=cfg_objs, seed=seed)
         # what the caller still holds - kept outside the dataset's object graph (it is not part of the dataset: C09 walks everything
         # reachable from a dataset and would otherwise judge the caller's untouched originals as worker state)
         for k in [k for k, (r, _) in _CALLER_CONFIGS.items() if r() is None]:
@@ -115,7 +116,7 @@ def build_stack(w):
         ts = []
         for s in w["ts"]:
             ts.append(getattr(T, s["k"])(**s["a"]) if s["k"].startswith("KDSemseg") else treg.build(s))
-        ds = W.SemsegTransformWrapper(base, transforms=ts, seed=seed)
+        ds = W.SemsegTransformWrapper(base, ts, seed) if w.get("call") == "positional" else W.SemsegTransformWrapper(base, transforms=ts, seed=seed)
     elif kind == "byol":
         from kappadata.common.wrappers.sample_wrappers import ByolMultiViewWrapper
         ds = ByolMultiViewWrapper(base, seed=seed)
@@ -345,7 +346,7 @@ def wrapper_spec(draw, tier):
                                  "minaug_x", "minaug_mv"] + (["byol", "mugs"] if tier == "thorough" else [])))
     w = {"kind": kind, "n": draw(st.integers(2, 7)), "key": draw(st.integers(0, 99)), "seed": draw(st.integers(0, 2 ** 31)),
          "pos": draw(st.sampled_from(["top", "under_pass", "over_subset", "under_subset"])),
-         "seed_form": draw(st.sampled_from(["int", "int", "numpy"]))}
+         "seed_form": draw(st.sampled_from(["int", "int", "numpy"])), "call": draw(st.sampled_from(["keyword", "positional"]))}
     if kind in ("x", "y", "source", "target"):
         w["t"] = draw(NOSCHED)
         w["fam"] = treg.family(w["t"])
